@@ -43,6 +43,7 @@ pub fn probes(_tier: &str) -> Vec<String> {
     "probe.method_controller_differs_from_id_did",
     "probe.also_known_as_mentions_self",
     "probe.oversize_pack_refused",
+    "probe.deeply_nested_property",
     "probe.near_limit_pack_ok",
   ]
   .iter()
@@ -698,6 +699,49 @@ pub fn run(_params: &Params) {
           }
         }
         Err(pmsg) => ctx::violation("C14", "C14.oversize_fails_to_pack", "oversize/panic", format!("pack panicked: {pmsg}")),
+      }
+    }
+  }
+  // ---- I14.1 for machine-generated trees: a custom property (of the document or of its metadata) whose value is nested
+  // 40..200 levels deep. The writer has no depth limit; whatever packs has to unpack as the same document.
+  if ctx::choose(20) == 0 {
+    if let AnyDoc::Iota(doc) = &p.doc {
+      let mut deep = doc.clone();
+      let depth = [40usize, 90, 120, 124, 126, 128, 130, 200][ctx::choose(8)];
+      let in_meta = ctx::choose(2) == 0;
+      let mut v = Value::from("leaf");
+      for level in 0..depth {
+        v = if level % 2 == 0 { serde_json::json!({ "n": v }) } else { Value::Array(vec![v]) };
+      }
+      if in_meta {
+        deep.metadata.properties_mut().insert("tree".to_owned(), v);
+      } else {
+        deep.properties_mut_unchecked().insert("tree".to_owned(), v);
+      }
+      ctx::stat("probe.deeply_nested_property");
+      let where_ = if in_meta { "metadata" } else { "document" };
+      ctx::trace(format!("nesting probe: a {where_} property nested {depth} levels deep"));
+      match ctx::catch(|| deep.clone().pack()) {
+        Ok(Ok(bytes)) => match ctx::catch(|| unpack_for(&bytes, &p.did)) {
+          Ok(Ok(u)) => {
+            let want = serde_json::to_value(deep.core_document()).unwrap();
+            check_unpacked("nested-property", &Ok(u), &want, &expected_meta(&deep));
+          }
+          Ok(Err(e)) => ctx::violation(
+            "C14",
+            "C14.round_trip",
+            "nested-property/packs-but-does-not-unpack",
+            format!("a document whose {where_} property is nested {depth} levels deep packed into {} bytes, which unpack rejects: {e}", bytes.len()),
+          ),
+          Err(pmsg) => ctx::violation("C14", "C14.round_trip", "nested-property/unpack-panic", format!("unpack panicked: {pmsg}")),
+        },
+        Ok(Err(e)) => ctx::violation(
+          "C14",
+          "C14.round_trip",
+          "nested-property/refused",
+          format!("a document whose {where_} property is nested {depth} levels deep (far below the 16-bit length) failed to pack: {e}"),
+        ),
+        Err(pmsg) => ctx::violation("C14", "C14.round_trip", "nested-property/pack-panic", format!("pack panicked: {pmsg}")),
       }
     }
   }
